@@ -12,7 +12,7 @@ import (
 func init() {
 	register(&Spec{ID: "C11", Title: "Server messages and environment changes are surfaced exactly once", Run: runC11,
 		Meta: core.Meta{
-			Explanation: "Call-site and dominance rules over the hook dispatch. R11.1: handleSpecialPackage is called only from tryParsePackage, the call is dominated by pkg.ReadFrom's error being nil (a retried, incomplete parse cannot reach a hook) and it dominates the delivery send. R11.2: the delivery `packageCh <- pkg` is dominated by pass == true. R11.3: inside handleSpecialPackage — on the *EnvChangePackage edge every return yields false; the member loop calls callEnvChangeHooks exactly once per iteration with (member.Type, member.OldValue, member.NewValue) of the iteration's member; Conn.packetSize is stored from Atoi(member.NewValue) only on the Type == TDS_ENV_PACKSIZE edge; on the *EEDPackage edge the informational test is the non-vacuous mask Status&TDS_EED_INFO == TDS_EED_INFO, its true edge returns false without calling hooks, the other edge calls callEEDHooks exactly once and returns true. R11.4: callEEDHooks/callEnvChangeHooks are a single range loop over the registered slice calling each element once while holding the hooks mutex; Register*Hooks append to the same slice under the same mutex and reject nil entries before appending. R11.5: NextPackageUntil collects every *EEDPackage (Add, then continue before the callback); every return on a callback-error path (other than the identity io.EOF shortcut) returns fmt.Errorf(...%w, err) or the *EEDError whose WrappedError was set to it; EEDError.Is delegates to errors.Is(WrappedError, target); EED packages collected by the drain are appended after the earlier ones. R11.6 = C06's R06.5 for the member parser (each ENVCHANGE member is parsed into a fresh struct). R11.1 also requires one package per tryParsePackage invocation (a handled special package must be discarded before the next package is attempted, otherwise a fragmented successor makes it be parsed and reported again). R11.3 also requires that every iteration of the member loop evaluates the PACKSIZE test.",
+			Explanation: "Call-site and dominance rules over the hook dispatch. R11.1: handleSpecialPackage is called only from tryParsePackage, the call is dominated by pkg.ReadFrom's error being nil (a retried, incomplete parse cannot reach a hook) and it dominates the delivery send. R11.2: the delivery `packageCh <- pkg` is dominated by pass == true. R11.3: inside handleSpecialPackage — on the *EnvChangePackage edge every return yields false; the member loop calls callEnvChangeHooks exactly once per iteration with (member.Type, member.OldValue, member.NewValue) of the iteration's member; Conn.packetSize is stored from Atoi(member.NewValue) only on the Type == TDS_ENV_PACKSIZE edge; on the *EEDPackage edge the informational test is the non-vacuous mask Status&TDS_EED_INFO == TDS_EED_INFO, its true edge returns false without calling hooks, the other edge calls callEEDHooks exactly once and returns true. R11.4: callEEDHooks/callEnvChangeHooks are a single range loop over the registered slice calling each element once while holding the hooks mutex; Register*Hooks append to the same slice under the same mutex and reject nil entries before appending. R11.5: NextPackageUntil collects every *EEDPackage (Add, then continue before the callback); every return on a callback-error path (other than the identity io.EOF shortcut) returns fmt.Errorf(...%w, err) or the *EEDError whose WrappedError was set to it; EEDError.Is delegates to errors.Is(WrappedError, target); EED packages collected by the drain are appended after the earlier ones. R11.7 = R02.7 (a polling NextPackageUntil that has consumed an EED must wait for the rest; giving up drops the collected messages). R11.4 also requires that the hook lists are only ever appended to (never assigned a caller's slice). R11.6 = C06's R06.5 for the member parser (each ENVCHANGE member is parsed into a fresh struct). R11.1 also requires one package per tryParsePackage invocation (a handled special package must be discarded before the next package is attempted, otherwise a fragmented successor makes it be parsed and reported again). R11.3 also requires that every iteration of the member loop evaluates the PACKSIZE test.",
 			NotDecided:  "Exactly-once across packetisations rests on C02/C07 (retry without side effects); panicking hooks and hooks registered concurrently with dispatch are not decided.",
 			Assumptions: []string{"hooks do not re-enter the channel"},
 		}})
@@ -26,6 +26,8 @@ func runC11(r *core.Run) {
 	r.Rule("R11.4", "hook lists: one loop, each hook once, one mutex, nil rejected", 6, false)
 	r.Rule("R11.5", "NextPackageUntil aggregates EED packages into the error it returns", 4, false)
 	r.Rule("R11.6", "ENVCHANGE members are parsed into fresh structs", 1, false)
+	r.Rule("R11.7", "NextPackageUntil waits for every package after the first, so no collected message is dropped by a poll (R02.7)", 1, false)
+	defer c02WaitAfterFirst(r, "R11.7")
 
 	hsp := p.Func("tds", "Channel", "handleSpecialPackage")
 	tpp := p.Func("tds", "Channel", "tryParsePackage")
@@ -397,6 +399,7 @@ func c11Hooks(r *core.Run) {
 
 		// register: nil check dominates append; append to the same field
 		okR, whyR := false, "no append to "+h.field.Name()+" found"
+		badStore := ""
 		for _, b := range regFn.Blocks {
 			for _, in := range b.Instrs {
 				st, isS := in.(*ssa.Store)
@@ -409,9 +412,11 @@ func c11Hooks(r *core.Run) {
 				}
 				call, isC := st.Val.(*ssa.Call)
 				if !isC {
+					badStore = "the hook list is assigned " + core.Expr(st.Val) + " instead of being appended to: the channel then shares the backing array of a slice the caller keeps, and a later append by the caller overwrites a registered hook"
 					continue
 				}
 				if bi, isB := call.Call.Value.(*ssa.Builtin); !isB || bi.Name() != "append" {
+					badStore = "the hook list is assigned the result of " + calleeKey(call) + ", not of append(list, hooks...)"
 					continue
 				}
 				if f, _ := core.FieldLoad(call.Call.Args[0]); f != h.field {
@@ -452,6 +457,9 @@ func c11Hooks(r *core.Run) {
 					}
 				}
 			}
+		}
+		if badStore != "" {
+			okR, whyR = false, badStore
 		}
 		if inLoop {
 			okR, whyR = false, "hooks are appended inside the validation loop: a call that is rejected because of a nil hook has already registered the hooks before it, and repeating the call registers them twice"
